@@ -114,6 +114,11 @@ pub mod verif {
         pub fn strong_count(&self) -> usize {
             Arc::strong_count(&self.0.counter)
         }
+        /// a `Weak` to the counted `Arc`: lets an observer read the strong count while a
+        /// `wait_guards` future holds the `&mut` borrow (does not change the strong count)
+        pub fn weak(&self) -> std::sync::Weak<()> {
+            Arc::downgrade(&self.0.counter)
+        }
     }
 
     impl VGuard {
